@@ -184,14 +184,14 @@ func StdKeys(rng *rand.Rand, n int) KeyPool {
 
 // GenOpts selects what a generated sequence may contain.
 type GenOpts struct {
-	Kinds   []string // weighted by repetition
-	Keys    KeyPool
-	NOps    int
-	TTLs    []int64 // context TTL choices (0 = none)
-	Sleeps  []int64
-	Rewrite bool // overwrite the key buffer right after every call returns (C09)
-	LenBeforeBatch bool // insert a Len right before ExpireAll / DeleteAll (C18: "entries touched")
-	Script  []BOp // when set, the operations to run (Kind, K, V, TTL, Skip, Sleep); Now/Jit are filled in
+	Kinds          []string // weighted by repetition
+	Keys           KeyPool
+	NOps           int
+	TTLs           []int64 // context TTL choices (0 = none)
+	Sleeps         []int64
+	Rewrite        bool  // overwrite the key buffer right after every call returns (C09)
+	LenBeforeBatch bool  // insert a Len right before ExpireAll / DeleteAll (C18: "entries touched")
+	Script         []BOp // when set, the operations to run (Kind, K, V, TTL, Skip, Sleep); Now/Jit are filled in
 }
 
 // BRun is the outcome of running a generated sequence.
